@@ -27,13 +27,27 @@ def sim_variants(tier):
 
 def tables_for(prog, tier, two):
     names = [c for c in gd.conditions_of(prog) if c != "never"]
+    seen = set()
+
+    def emit(gen):
+        for t in gen:
+            key = tuple(sorted((k, tuple(v)) for k, v in t.items()))
+            if key in seen:
+                continue
+            seen.add(key)
+            t = dict(t)
+            t["never"] = [False]
+            yield t
+
+    modular = bool(prog.get("main"))
     if tier == "quick":
-        times, dev, shapes = (0, 1, 3), (1 if two or prog.get("main") else 2), ("step",)
+        yield from emit(gd.fire_tables(names, HORIZON, 1 if two or modular else 2, ("step",), (0, 1, 3)))
     else:
-        times, dev, shapes = (0, 1, 2, 3, 4), (1 if two else 2), ("step", "pulse")
-    for t in gd.fire_tables(names, HORIZON, dev, shapes, times):
-        t["never"] = [False]
-        yield t
+        # every single condition firing at every step (step and pulse shapes), and every pair of
+        # conditions firing at steps 0, 1, 3
+        yield from emit(gd.fire_tables(names, HORIZON, 1, ("step", "pulse"), (0, 1, 2, 3, 4)))
+        if not two:
+            yield from emit(gd.fire_tables(names, HORIZON, 2, ("step",), (0, 1, 3)))
 
 
 def run_case(scene, prog, tables, var, schedule, raise_guards=False):
